@@ -156,7 +156,63 @@ def root_lock_fns(facts):
     return acq, rel
 
 
+POISONING = ("sync::Mutex", "sync::RwLock", "sync::poison::mutex::Mutex", "sync::poison::rwlock::RwLock")
+
+
+def poisoning_acquire(c):
+    """std's poisoning lock primitives (their guards mark the lock poisoned when dropped during a panic)"""
+    s = strip_generics(callee_str(c))
+    if not (s.startswith("std::sync::") or s.startswith("std::sync::poison::")):
+        return None
+    for t in POISONING:
+        for m in ("lock", "read", "write", "try_lock", "try_read", "try_write"):
+            if s.endswith(t + "::" + m):
+                return s
+    return None
+
+
+def rule_u6(ctx, facts):
+    """the locks under which callbacks run do not remember a panic: every lock acquisition in the crate is a non-poisoning primitive
+    (parking_lot / lock_api), or recovers the guard from a PoisonError.  A std::sync::Mutex whose LockResult is unwrap()ed turns ONE
+    panicking callback into a panic of every later operation on that bin."""
+    from .analysis import lock_calls
+    n = 0
+    for b in facts.bodies:
+        fl = flow(b)
+        for c in b.calls:
+            if b.is_cleanup(c.b):
+                continue
+            pa = poisoning_acquire(c)
+            if pa is None:
+                continue
+            n += 1
+            dl = c.dst_local()
+            bad = None
+            if dl is not None:
+                sinks = fl.flows_to(dl)
+                for u in b.calls:
+                    if u.point == c.point or not u.args or op_root(u.args[0]) not in sinks:
+                        continue
+                    us = strip_generics(callee_str(u))
+                    if us.endswith("Result::unwrap") or us.endswith("Result::expect"):
+                        bad = u
+                        break
+            ctx.inst("U6", b, "poisoning lock %s" % pa.rsplit("::", 2)[-2], c.span, bad is None,
+                     "the PoisonError is not turned into a panic" if bad is None else
+                     "%s poisons its lock when a holder panics (e.g. in a caller-supplied closure), and the result is %s at %s: after one panicking "
+                     "callback every later operation that needs this lock panics" % (pa, strip_generics(callee_str(bad)).rsplit("::", 1)[-1], bad.span))
+        for c in lock_calls(b):
+            n += 1
+            s = strip_generics(callee_str(c))
+            tb = facts.by_id.get(c.resolved)
+            ctx.inst("U6", b, "acquire at %s" % c.span.split(":", 1)[1], c.span, True,
+                     "%s: %s" % (s, "crate-local wrapper (its body is judged where it acquires)" if tb is not None else "non-poisoning primitive"))
+    return n
+
+
 def run(ctx, facts):
+    ctx.rule("U6", "lock acquisitions do not propagate poisoning: no std::sync lock whose LockResult is unwrapped", floor=8)
+    rule_u6(ctx, facts)
     ctx.rule("U1", "every user-closure call under a bin lock unwinds through the Drop of that MutexGuard", floor=2)
     ctx.rule("U2", "no user code between lock_root and unlock_root", floor=2)
     ctx.rule("U3", "retain / retain_force predicates are called under no lock", floor=2)
